@@ -29,6 +29,12 @@ func (in *Interp) deepEqT(t types.Type, x, y value, ign []*ignoreSpec, depth int
 	}
 	// go-cmp: "if the values have an Equal method of the form (T) Equal(T) bool, use the result of x.Equal(y)" - the
 	// real method of the code under test is called (only for gribigo's own types, when cmp.Equal is being modelled)
+	// cmp.Comparer(func(a, b T) bool): the caller's own function decides values of exactly type T
+	for _, c := range in.cmpComparers {
+		if types.Identical(c.typ, t) {
+			return in.call(in.curFr, 0, c.fn, []value{x, y})
+		}
+	}
 	if in.cmpEqualMethods && depth > 0 {
 		if m := in.equalMethodOf(t); m != nil {
 			r := in.call(in.curFr, 0, m, []value{x, y})
@@ -117,6 +123,12 @@ func (in *Interp) deepEqT(t types.Type, x, y value, ign []*ignoreSpec, depth int
 	return in.deepEq(x, y, depth)
 }
 
+// cmpComparer: one cmp.Comparer option - values of exactly typ are compared by calling fn.
+type cmpComparer struct {
+	typ types.Type
+	fn  value
+}
+
 func init() {
 	externTable["github.com/google/go-cmp/cmp/cmpopts.IgnoreFields"] = func(fr *frame, fn *ssa.Function, a []value) value {
 		t := a[0].(iface).t
@@ -129,17 +141,32 @@ func init() {
 	externTable["google.golang.org/protobuf/testing/protocmp.Transform"] = func(fr *frame, fn *ssa.Function, a []value) value {
 		return iface{t: opaqueAnyType, v: &opaque{kind: "cmp-transform"}}
 	}
+	externTable["github.com/google/go-cmp/cmp.Comparer"] = func(fr *frame, fn *ssa.Function, a []value) value {
+		f, ok := a[0].(iface)
+		sig, _ := f.t.(*types.Signature)
+		if !ok || sig == nil || sig.Params().Len() != 2 || !types.Identical(sig.Params().At(0).Type(), sig.Params().At(1).Type()) {
+			fr.in.unsupported("cmp.Comparer with an argument that is not func(T, T) bool")
+		}
+		return iface{t: opaqueAnyType, v: &opaque{kind: "cmp-comparer", detail: []value{&cmpComparer{typ: sig.Params().At(0).Type(), fn: f.v}}}}
+	}
 	cmpEq := func(fr *frame, a []value) value {
 		var ign []*ignoreSpec
+		var comps []*cmpComparer
 		if len(a) > 2 {
 			for _, o := range a[2].([]value) {
 				if i, ok := o.(iface); ok {
 					if op, ok := i.v.(*opaque); ok && op.kind == "cmp-ignore" {
 						ign = append(ign, op.detail[0].(*ignoreSpec))
 					}
+					if op, ok := i.v.(*opaque); ok && op.kind == "cmp-comparer" {
+						comps = append(comps, op.detail[0].(*cmpComparer))
+					}
 				}
 			}
 		}
+		savedC := fr.in.cmpComparers
+		fr.in.cmpComparers = comps
+		defer func() { fr.in.cmpComparers = savedC }()
 		x, y := a[0].(iface), a[1].(iface)
 		if x.t == nil || y.t == nil {
 			return x.t == nil && y.t == nil
